@@ -22,6 +22,11 @@ CHECKS = {
    note="Reference = the implementation itself run alone (decides history-independence, not semantic correctness). Isolation between runs is a fresh set of celpy module objects (reload isolation), cross-checked against real fresh-interpreter runs by the selftest. Abort points are Python lines of celpy and of transpiled code; lark/re2/pendulum are atomic.",
    technique="deterministic simulation: seeded API-history + fault-injection search with alone-run reference oracle, ddmin-minimised replay files",
    ref="3 (C05)"),
+ "C14": dict(
+   text="The host callable is the one external party the library calls during evaluation; the simulator owns it: every supplied function is an instrumented stub peer that records what it received and returns a scripted value or fires an injected fault (returned CELEvalError, raised ValueError/TypeError incl. subclasses and no-argument forms, unbound name). Seeded histories of 1-4 programs over both runners x list/dict supply x six callable kinds x global/method syntax x overrides of built-ins; oracles: received arguments and call counts against a small reference evaluator, and a metamorphic oracle (host call replaced by an equivalent pure-CEL expression / built-in error on the same runner). Sampling, not proof.",
+   note="Host callables are stubs; everything else is real. The absorbing rules of && || ?: and macro semantics over errors are taken as given (C02): differences that also occur without host calls are counted (core_disagreement) but not reported under C14. One recorded finding (known_findings.json) is matched only through a counterfactual re-execution.",
+   technique="deterministic simulation of the host-function seam: scripted stub peers with seeded fault injection, call-history oracle against a reference model plus metamorphic substitution oracle, AST-level minimisation",
+   ref="3 (C14)"),
  "C16": dict(
    text="2-4 real threads, each with its own Environment/program/bindings (the documented contract), run under a seeded baton-passing scheduler that pre-empts at every Python line of celpy and of transpiled code (policies: PCT depth<=3, random, hot-site-biased, round-robin; optional abort fault in one thread); every outcome must equal the same thread run alone; bounded liveness (<= 50x the alone step count). Sampling of schedules, not enumeration.",
    note="Pre-emption granularity is one source line (sys.monitoring LINE events); C extensions, lark (except in trace_lark runs of the thorough tier) and the stdlib are atomic. The choice of who runs is the only stub. Free-running OS-scheduled stress is deliberately not used (not replayable).",
